@@ -28,7 +28,9 @@ static const int CHUNKS7[] = {0, 1, 2, 3, 5, 8, 13, 16, 17, 32, 64, 100, 4096};
 struct C07Case { int n = 64; bool at_end = true; uint64_t poolseed = 1; std::vector<BCmd> cmds; };
 static std::string ser07(const C07Case &c) { std::string s = "C07|" + std::to_string(c.poolseed) + "|" + std::to_string(c.n) + "|" + (c.at_end ? "1" : "0"); for (auto &h : c.cmds) s += "|" + std::to_string(h.kind) + ":" + std::to_string(h.a) + ":" + std::to_string(h.b) + ":" + std::to_string(h.c); return s; }
 static bool parse07(const std::string &s, C07Case &c) { auto f = split(s, '|'); if (f.size() < 4 || f[0] != "C07") return false; c.poolseed = strtoull(f[1].c_str(), nullptr, 10); c.n = atoi(f[2].c_str()); c.at_end = f[3] == "1"; for (size_t i = 4; i < f.size(); i++) { auto q = split(f[i], ':'); if (q.size() != 4) return false; c.cmds.push_back({atoi(q[0].c_str()), atoi(q[1].c_str()), atoi(q[2].c_str()), atoi(q[3].c_str())}); } return true; }
-static std::vector<std::string> lines_for(const Pool &P, int seed, int nlines, int badpos) { hz::Rng r((uint64_t)seed * 2654435761ULL + 29); std::vector<std::string> v; nlines = 1 + (nlines % 24); for (int i = 0; i < nlines; i++) { if (badpos >= 0 && i == badpos % nlines) v.push_back(P.bad[r.below(P.bad.size())]); v.push_back(P.lines[r.below(P.lines.size())]); } return v; }
+// a quarter of the programs consists of lines written as densely as possible (code as long as or longer than its text, more so with padding)
+static const char *DENSE[] = {"mov [0],-1", "call 0", "jmp 0", "mov [9],-1", "add [0],-1", "xbegin 0", "mov rax,-1", "push -1", "mov [rax],-1", "call 9", "nop9", "nop11"};
+static std::vector<std::string> lines_for(const Pool &P, int seed, int nlines, int badpos) { hz::Rng r((uint64_t)seed * 2654435761ULL + 29); std::vector<std::string> v; bool dense = seed % 4 == 3; nlines = 1 + (nlines % 24); for (int i = 0; i < nlines; i++) { if (badpos >= 0 && i == badpos % nlines) v.push_back(P.bad[r.below(P.bad.size())]); v.push_back(dense ? std::string(DENSE[r.below(12)]) : P.lines[r.below(P.lines.size())]); } return v; }
 static std::string text07(const C07Case &c) {
   std::string s = "buffer of " + std::to_string(c.n) + " bytes (" + (c.at_end ? "guard page right behind" : "guard page right in front") + "): "; char b[96];
   for (auto &h : c.cmds) { switch (h.kind) {
@@ -144,6 +146,9 @@ static std::string text08(const C08Case &c) { char b[300]; snprintf(b, sizeof b,
 struct GV { bool ok = true; std::string symptom, detail; int growths = 0; bool near = false; };
 static GV check08(const Pool &P, const C08Case &c) {
   if (&alw != nullptr) alw.force_move = 1;   // every growth relocates the buffer: a stale pointer into the old mapping faults
+  al::tight_code((c.seed >> 1) % 3 != 0);    // two thirds of the cases: the buffer also ends directly in front of an inaccessible page
+  // the length argument is documented to be ignored for a library-managed buffer ("could be set to any number")
+  static const int ILEN[] = {0, 0, 1, 7, 19, 20, 21, 100, 6000, 6020, 1 << 20, -5, 4096}; const int ilen = ILEN[(c.seed >> 3) % 13];
   GV v; auto bad = [&](const std::string &s, const std::string &d) { v.ok = false; v.symptom = s; v.detail = d; return v; };
   hz::Rng r(c.seed); const std::vector<std::string> &src = c.safe ? P.safe : P.lines;
   long long target = (long long)c.q * 6000 + c.delta; uint64_t retval = r.next();
@@ -162,7 +167,7 @@ static GV check08(const Pool &P, const C08Case &c) {
     std::vector<std::string> head, body; long long hl = 0, bl = 0; int nh = (int)(c.seed % 7); for (int i = 0; i < nh; i++) { const std::string &l = src[r.below(src.size())]; head.push_back(l); hl += solo(l, c.combo).size(); }
     while (bl < 200 + (long long)(c.seed % 5) * 1700) { const std::string &l = src[r.below(src.size())]; body.push_back(l); bl += solo(l, c.combo).size(); }
     size_t N = (size_t)c.chunkv + bl + 4096; std::vector<uint8_t> ext(N, 0xcc);
-    al::heap_fill((unsigned)(c.seed + 1)); assemblyline_t ex = asm_create_instance(ext.data(), (int)N); al::heap_fill((unsigned)c.seed); assemblyline_t in = asm_create_instance(nullptr, 0); if (!in) { asm_destroy_instance(ex); return bad("create", "asm_create_instance(NULL, 0) returned NULL"); }
+    al::heap_fill((unsigned)(c.seed + 1)); assemblyline_t ex = asm_create_instance(ext.data(), (int)N); al::heap_fill((unsigned)c.seed); assemblyline_t in = asm_create_instance(nullptr, ilen); if (!in) { asm_destroy_instance(ex); return bad("create", "asm_create_instance(NULL, 0) returned NULL"); }
     al::apply_opts(in, combo_opts(c.combo)); al::apply_opts(ex, combo_opts(c.combo)); if (c.mode == 1) { asm_set_chunk_size(in, CHUNKS7[c.cidx % 13]); asm_set_chunk_size(ex, CHUNKS7[c.cidx % 13]); }
     std::string ht = join(head), bt = join(body); int ri = 0, re = 0;
     if (!head.empty()) { ri = asm_assemble_str(in, ht.c_str()); re = asm_assemble_str(ex, ht.c_str()); }
@@ -184,8 +189,8 @@ static GV check08(const Pool &P, const C08Case &c) {
   // split into calls at line boundaries
   std::vector<size_t> cuts; for (int i = 1; i < c.ncalls; i++) cuts.push_back(1 + r.below(lines.size() - 1)); if (c.split_tail) cuts.push_back(lines.size() - 2); std::sort(cuts.begin(), cuts.end()); cuts.push_back(lines.size());
   size_t N = 1 << 20; std::vector<uint8_t> ext(N, 0xcc);
-  al::heap_fill((unsigned)(c.seed + 1)); assemblyline_t ex = asm_create_instance(ext.data(), (int)N); al::heap_fill((unsigned)c.seed); assemblyline_t in = asm_create_instance(nullptr, 0);
-  if (!in) { asm_destroy_instance(ex); return bad("create", "asm_create_instance(NULL, 0) returned NULL"); }
+  al::heap_fill((unsigned)(c.seed + 1)); assemblyline_t ex = asm_create_instance(ext.data(), (int)N); al::heap_fill((unsigned)c.seed); assemblyline_t in = asm_create_instance(nullptr, ilen);
+  if (!in) { asm_destroy_instance(ex); return bad("create", "asm_create_instance(NULL, " + std::to_string(ilen) + ") returned NULL"); }
   al::apply_opts(in, combo_opts(c.combo)); al::apply_opts(ex, combo_opts(c.combo));
   int cs = c.chunkv >= 0 ? c.chunkv : CHUNKS7[c.cidx % 13]; if (c.mode == 1) { asm_set_chunk_size(in, cs); asm_set_chunk_size(ex, cs); }
   size_t li = 0; int call = 0;
@@ -258,8 +263,8 @@ void prop_c08(hz::Ctx &ctx) {
     }
   }
   // positions set beyond the code and beyond the current length of the library-managed buffer
-  { static const int G[] = {0, 100, 5999, 6000, 6001, 6019, 6020, 6021, 7000, 8191, 8192, 8193, 12000, 12019, 12020, 12021, 12287, 12288, 12289, 18020, 20000, 65536, 100000, 1 << 20};
-    for (int gi = 0; gi < 24; gi++) for (int var = 0; var < (ctx.thorough() ? 12 : 3); var++) { if (!ctx.take()) continue; C08Case c; c.family = 3; c.chunkv = G[gi]; c.mode = (gi + var) % 3 == 2 ? 1 : 0; c.cidx = 5 + (gi + var) % 6; c.combo = (gi * 5 + var) % 12; c.safe = false; c.seed = ctx.seed * 53 + gi * 31 + var; c.poolseed = ctx.seed; run(c, "part:offset-beyond-length", false); } }
+  { static const int G[] = {0, 100, 5999, 6000, 6001, 6019, 6020, 6021, 7000, 8191, 8192, 8193, 12000, 12019, 12020, 12021, 12287, 12288, 12289, 18020, 20000, 65536, 100000, 1 << 20, 12001, 12005, 12010, 12015, 12018, 18001, 18010, 18019, 12022, 12030, 24000, 24015};
+    for (int gi = 0; gi < 36; gi++) for (int var = 0; var < (ctx.thorough() ? 12 : 3); var++) { if (!ctx.take()) continue; C08Case c; c.family = 3; c.chunkv = G[gi]; c.mode = (gi + var) % 3 == 2 ? 1 : 0; c.cidx = 5 + (gi + var) % 6; c.combo = (gi * 5 + var) % 12; c.safe = false; c.seed = ctx.seed * 53 + gi * 31 + var; c.poolseed = ctx.seed; run(c, "part:offset-beyond-length", false); } }
   // overhang family: chunk fitting pushes an instruction that started inside the 20-byte reserve rule to a position beyond the current capacity
   for (int q = 1; q <= 3; q++) for (int d = 0; d <= 8; d++) for (int j = 1; j <= 12; j++) for (int lsel = 0; lsel < 5; lsel++) {
     if (!ctx.thorough() && (q * 7 + d * 3 + j + lsel + ctx.seed) % 4) continue;
